@@ -1153,11 +1153,16 @@ theorem runWith_wi (sp : SpecialFn) (hsound : SpecialSound sp) (mode : Mode) (c'
   cases hreg : Cmd.regular sig.name with
   | some body =>
     intro s hs
-    rw [runWith_regular_run sp mode c' sig raw fs hreg]
+    cases hr : s.refuses c' sig with
+    | true => rw [runWith_refused sp mode c' sig raw fs hr]; exact hs
+    | false =>
+    rw [runWith_regular_run sp mode c' sig raw fs hreg s hr]
     exact hs.afterRegular c' sig body raw fs hreg
   | none =>
     unfold runWith
     refine Pres.bind (wi_getConn c') (fun conn => ?_)
+    split
+    · exact Pres.pure _
     refine wi_getDb_bind _ (fun s hs => ?_)
     simp only [hreg]
     refine wi_at_setDb_bind hs (Sig.apply_reads sig raw (hs.data.dbAt _).1) ?_
@@ -1273,6 +1278,8 @@ theorem runScriptCmd_wi (hsound : SpecialSound (special (fun _ _ => do fault "ne
   have hbody := scriptBody_wi _ hsound (special_specialOK (strict := strict) (c := c) (d := d) (k := k) (R := R) (T := T) _ stub_innerOK) mode c'
   unfold runScriptCmd
   refine Pres.bind (wi_getConn c') (fun conn => ?_)
+  split
+  · exact Pres.pure _
   refine wi_getDb_bind _ (fun s hs => ?_)
   dsimp only
   refine wi_at_setDb_bind hs (Sig.apply_reads sig raw (hs.data.dbAt _).1) ?_
@@ -2174,7 +2181,10 @@ theorem runWith_len (special : Mode → Nat → String → List Arg → List CI 
   cases hreg : Cmd.regular sig.name with
   | some body =>
     intro s hs
-    rw [runWith_regular_run special mode c sig raw fromScript hreg]
+    cases hr : s.refuses c sig with
+    | true => rw [runWith_refused special mode c sig raw fromScript hr]; exact hs
+    | false =>
+    rw [runWith_regular_run special mode c sig raw fromScript hreg s hr]
     show (s.afterRegular _ _).srv.dbs.length = N
     rw [Sys.afterRegular_dbs, List.length_set]
     exact hs
@@ -2592,7 +2602,13 @@ theorem runWith_regular_flag (sp : SpecialFn) (mode : Mode) (c' : Nat) (sig : Si
     ((runWith sp mode c' sig raw fs s).2.conn c).watchNotified =
       ((s.conn c).watchNotified ||
         (s.regularOut c' sig body raw fs).notified.any fun key => (s.conn c).watches.contains ((s.conn c').db, key)) := by
-  rw [runWith_regular_run sp mode c' sig raw fs hreg]
+  cases hr : s.refuses c' sig with
+  | true =>
+    -- refused in subscriber mode: nothing changes, and nothing is notified
+    rw [runWith_refused sp mode c' sig raw fs hr, (Sys.regularOut_of_refused body raw fs hr).1]
+    exact ⟨rfl, by simp⟩
+  | false =>
+  rw [runWith_regular_run sp mode c' sig raw fs hreg s hr]
   unfold Sys.afterRegular
   generalize s.regularOut c' sig body raw fs = o
   generalize hs1 : Sys.faultS ({ s with srv := { s.srv with dbs := s.srv.dbs.set (s.conn c').db o.db.dict }, picks := s.picks.drop o.picksUsed } : Sys) o.fault = s1
@@ -2670,10 +2686,13 @@ theorem processCommand_regular_flag (mode : Mode) (nameB : Bytes) (args : List B
   have hrun : Pres (FlagInv c c' W b d0) (runCommand mode c' sig args false) := by
     rw [runCommand_not_script mode c' sig args false (regular_not_script hreg)]
     intro s h
+    cases hr : s.refuses c' sig with
+    | true => rw [runWith_refused _ mode c' sig args false hr]; exact h
+    | false =>
     have hf := runWith_regular_flag (special (runInner mode c')) mode c' sig args false hreg s
     have hdbs : (runWith (special (runInner mode c')) mode c' sig args false s).2.srv.closedSockets
         = s.srv.closedSockets := by
-      rw [runWith_regular_run _ mode c' sig args false hreg]
+      rw [runWith_regular_run _ mode c' sig args false hreg s hr]
       unfold Sys.afterRegular
       rw [(forM_notify_srv _ _ _).2.2, Sys.faultS_srv]
     refine ⟨hdbs ▸ h.opened, (hf c).1.trans h.watches, ?_, ?_⟩
@@ -2688,7 +2707,7 @@ theorem processCommand_regular_flag (mode : Mode) (nameB : Bytes) (args : List B
     · have hd : ∀ (ks : List Bytes) (d' : Nat) (u : Sys), ((ks.forM (notifyWatch d') u).2.conn c').db = (u.conn c').db :=
         fun ks d' u => forM_notifyWatch_pred (fun y => y.db = (u.conn c').db)
           (fun d'' key y hy => by rw [notifyFn_eq]; exact hy) d' ks c' u rfl
-      rw [runWith_regular_run _ mode c' sig args false hreg]
+      rw [runWith_regular_run _ mode c' sig args false hreg s hr]
       unfold Sys.afterRegular
       rw [hd]
       simp only [Sys.conn_def, Sys.faultS_srv]
